@@ -399,8 +399,7 @@ ReadFifo == R.ok /\ View(R.b) = Range(R.out + 1, R.src)
 \* (b) the inner stream received the accepted bytes in order, and everything accepted and
 \*     not yet received is still in the buffer (also after a failed flush)
 WriteFifo == W.ok /\ View(W.b) = Range(W.sink + 1, W.acc)
-\* (c) limits: the unsent bytes never exceed max_buffer_size; the unread bytes never exceed
-\*     it either - except for the recorded deviation below
+\* (c) limits: neither the unsent nor the unread buffered bytes ever exceed max_buffer_size
 WriteLimit == Len(View(W.b)) <= cfg.max
 ReadLimitStrict == Len(View(R.b)) <= cfg.max
 \* deviation of the pinned code before commit a1c242c (finding C12-read-limit-overshoot, fixed):
